@@ -82,6 +82,12 @@ def monitor(tree):
             st = self.__dict__.get("_vp_mon")
             if st is not None:
                 t = threading.get_ident()
+                pause = st.get("pause")
+                if pause is not None and pause["tid"] == t:
+                    mine = len([e for e in st["log"] if e[1] == t])
+                    if mine == pause["index"] and not pause["hit"].is_set():
+                        pause["hit"].set()  # about to perform the scheduled READ
+                        pause["go"].wait(pause["timeout"])
                 st["log"].append(("READ", t, attr, st["lock"].held_by(t), st["lock"].owner))
             return self.__dict__[attr]
 
@@ -277,6 +283,46 @@ def replay_foreign_read(op, cls, state, tmpdir, timeout=5.0):
     return bool(foreign), [e[2] for e in foreign]
 
 
+def replay_schedule(op, cls, state, tmpdir, read_index, timeout=3.0):
+    """Replay the solver's schedule: the reader runs up to its event number
+    `read_index` (a READ outside its own critical sections), then a writer
+    enters `with tree:`, then the reader performs the READ.  True if the
+    monitor records that READ while the writer owns the lock."""
+    tree = make_tree(cls, state)
+    log = monitor(tree)
+    st = tree.__dict__["_vp_mon"]
+    hit, go = threading.Event(), threading.Event()
+    entered, release = threading.Event(), threading.Event()
+    wid = {}
+
+    def reader():
+        st["pause"] = {"tid": threading.get_ident(), "index": read_index, "hit": hit, "go": go, "timeout": timeout}
+        run_op(op, tree, tmpdir)
+
+    def writer():
+        with tree:
+            wid["t"] = threading.get_ident()
+            entered.set()
+            release.wait(timeout)
+
+    tr = threading.Thread(target=reader, daemon=True)
+    tr.start()
+    if not hit.wait(timeout):
+        go.set()
+        tr.join(timeout)
+        return False, []
+    tw = threading.Thread(target=writer, daemon=True)
+    tw.start()
+    got_in = entered.wait(1.0)
+    mark = len(log)
+    go.set()
+    tr.join(timeout)
+    foreign = [e for e in log[mark:] if e[0] == "READ" and e[1] != wid.get("t") and got_in and e[4] == wid.get("t")]
+    release.set()
+    tw.join(timeout)
+    return bool(foreign), [e[2] for e in foreign]
+
+
 def reentrancy_ok(op, cls, state, tmpdir, timeout=5.0):
     tree = make_tree(cls, state)
     done = threading.Event()
@@ -335,6 +381,20 @@ def run_custom(tier, seed, only=None, verbose=False):
                 pass
             elif str(res) == "sat":
                 ok, attrs = replay_foreign_read(op, cls, st, tmpdir)
+                if not ok:
+                    # follow the solver's schedule: which reader READ sits inside a writer section?
+                    m = s.model()
+                    rvars = tv["R0"]
+                    secs = outer_sections(threads[0][1])
+                    widx = [(m.eval(tv["W0"][a]).as_long(), m.eval(tv["W0"][b]).as_long()) for a, b in secs]
+                    for kk, e in enumerate(tr):
+                        if e[0] != "READ":
+                            continue
+                        tk = m.eval(rvars[kk]).as_long()
+                        if any(a < tk < b for a, b in widx):
+                            ok, attrs = replay_schedule(op, cls, st, tmpdir, kk)
+                            if ok:
+                                break
                 validated += 1
                 if ok:
                     key = "%s-%s" % (op, cls)
